@@ -298,7 +298,7 @@ def do_run(pid, mod, tier, seed, scale):
     buckets = collections.OrderedDict()
     for f in failures:
         buckets.setdefault(f["bucket"], []).append(f)
-    found_dir = os.path.join(rdir, "found")
+    found_dir = os.environ.get("VERIF_FOUND_DIR") or os.path.join(rdir, "found")
     fail_samples = []
     sigf = getattr(mod, "signature", None)
     shrink = getattr(mod, "shrink", None)
@@ -376,7 +376,8 @@ def do_run(pid, mod, tier, seed, scale):
 
 
 def write_evidence(pid, ev):
-    os.makedirs(os.path.join(VERIF, "evidence"), exist_ok=True)
+    evdir = os.environ.get("VERIF_EVIDENCE_DIR") or os.path.join(VERIF, "evidence")
+    os.makedirs(evdir, exist_ok=True)
     try:
         import jsonschema
         sp = "/root/.vp/EVIDENCE.schema.json"
@@ -389,7 +390,7 @@ def write_evidence(pid, ev):
         pass
     except Exception as e:  # schema violation is a harness problem, say so loudly
         print("note: evidence does not validate: %s" % str(e)[:300])
-    with open(os.path.join(VERIF, "evidence", pid + ".json"), "w") as f:
+    with open(os.path.join(evdir, pid + ".json"), "w") as f:
         json.dump(ev, f, indent=1, default=str, sort_keys=True)
         f.write("\n")
 
